@@ -99,6 +99,11 @@ type Store struct {
 	// injection): lets a harness model a concurrent writer winning a race.
 	BeforeCreate func(group, kind, ns, name string)
 
+	// BeforeCall runs at the start of every call with the call's index: lets
+	// a harness model another actor writing (Touch) between two calls of the
+	// code under test.
+	BeforeCall func(n int)
+
 	// Reject makes the API server refuse (as invalid) any write of an object
 	// for which it returns true; the answer is the same in dry-run mode.
 	Reject func(group, kind, ns, name string) bool
@@ -219,6 +224,9 @@ func str(m map[string]any, k string) string {
 func (s *Store) fault() int {
 	n := s.calls
 	s.calls++
+	if s.BeforeCall != nil {
+		s.BeforeCall(n)
+	}
 	if s.FaultAt >= 0 && n == s.FaultAt && !s.Faulted {
 		s.Faulted = true
 		return s.FaultKind
@@ -248,6 +256,25 @@ func (e errString) Error() string { return string(e) }
 
 // ---------------------------------------------------------------------
 // direct access for harnesses (no faults, no log)
+
+// Touch is a write by another actor that changes nothing the code under test
+// looks at (an annotation): the stored object gets a new resourceVersion, so
+// a writer holding the previous version conflicts.
+func (s *Store) Touch(group, kind, ns, name string) {
+	i := s.find(group, kind, ns, name)
+	if i < 0 {
+		return
+	}
+	md := metaOf(s.entries[i].doc)
+	ann, _ := md["annotations"].(map[string]any)
+	if ann == nil {
+		ann = map[string]any{}
+		md["annotations"] = ann
+	}
+	ann["example.org/touched-by-another-actor"] = "true"
+	md["resourceVersion"] = s.nextRV()
+	s.mutated()
+}
 
 // Put stores obj as is (pre-state construction).
 func (s *Store) Put(obj client.Object) {
